@@ -176,6 +176,7 @@ def main():
     obligations = list(mod.THEOREMS)
     broken = []
     axioms = {}
+    leanchecker = None
     targets = list(mod.TARGETS)
     if not a.no_build:
         with lean.Locked():
@@ -187,6 +188,14 @@ def main():
                 broken += [f'build: {b}' for b in (lean.broken_decls(log) or [log[-400:]])]
             hits, mods = lean.grep_forbidden(targets)
             broken += [f'forbidden construct: {h}' for h in hits]
+            if ok and a.tier == 'thorough':
+                # thorough tier: the compiled proofs of this property's modules (everything under SFModel they import,
+                # drivers excluded) are replayed by the independent checker
+                rmods = [m for m in mods if '.Drv.' not in m]
+                rok, rlog = lean.recheck(rmods)
+                leanchecker = {'modules': len(rmods), 'ok': rok}
+                if not rok:
+                    broken.append(f'leanchecker: {rlog[-300:]}')
             if ok:
                 axioms = lean.audit(obligations, targets)
                 for t, ax in axioms.items():
@@ -286,6 +295,7 @@ def main():
             # region in which a new violation of the same kind would be read as the old one
             'known_findings_absorbed': dict(sorted(absorbed.items())),
             'built': not a.no_build,
+            'leanchecker': leanchecker if leanchecker is not None else 'thorough tier only',
         },
         'assumptions': list(getattr(mod, 'ASSUMPTIONS', [])),
         'wall_s': round(ctx.elapsed(), 2),
